@@ -11,6 +11,7 @@ import (
 	"unsafe"
 
 	mocker "github.com/tencent/goom"
+	"github.com/tencent/goom/arg"
 	"github.com/tencent/goom/erro"
 	"github.com/tencent/goom/zzverif/vmon"
 )
@@ -261,6 +262,32 @@ func TestC13(t *testing.T) {
 				tg.handle(b).When(as...)
 			}})
 		}
+		// an In clause one of whose alternatives lists too few arguments, the offender first, in the middle and last;
+		// and an arg.In expression with an ill-formed (empty tuple) alternative in front of a good one
+		if !tg.cbType.IsVariadic() && !tg.isIface && nargs >= 2 {
+			for pos := 0; pos < 3; pos++ {
+				pos := pos
+				ms = append(ms, mistake{"in-alternative-too-few-arguments", fmt.Sprintf("alternative %d of 3 has %d of %d", pos, nargs-1, nargs), func(b *mocker.Builder) {
+					full := make([]interface{}, nargs)
+					for i := range full {
+						full[i] = goodValue(ins[skip+i])
+					}
+					alts := []interface{}{append([]interface{}{}, full...), append([]interface{}{}, full...), append([]interface{}{}, full...)}
+					alts[pos] = append([]interface{}{}, full[:nargs-1]...)
+					tg.handle(b).When(full...).In(alts...)
+				}})
+			}
+		}
+		if !tg.cbType.IsVariadic() && !tg.isIface && nargs >= 1 {
+			ms = append(ms, mistake{"arg-in-ill-formed-alternative", "When(arg.In([]interface{}{}, v), ...)", func(b *mocker.Builder) {
+				as := make([]interface{}, nargs)
+				for i := range as {
+					as[i] = goodValue(ins[skip+i])
+				}
+				as[0] = arg.In([]interface{}{}, as[0])
+				tg.handle(b).When(as...)
+			}})
+		}
 		for k := 1; k < len(outs); k++ {
 			k := k
 			ms = append(ms, mistake{"return-too-few-values", fmt.Sprintf("%d of %d", k, len(outs)), func(b *mocker.Builder) {
@@ -357,6 +384,11 @@ func TestC13(t *testing.T) {
 		}
 		for _, m := range ms {
 			for _, pre := range []bool{false, true} {
+				if m.class == "in-alternative-too-few-arguments" && !pre {
+					// goes through an existing configuration (a well-formed When in front of the ill-formed clause):
+					// only issued on a target that is already stubbed
+					continue
+				}
 				if tg.isIface {
 					iv = nil
 				}
@@ -453,6 +485,22 @@ func TestC13(t *testing.T) {
 		}},
 		{"interface-not-interface", "Interface(&struct)", func(b *mocker.Builder) { b.Interface(&NotIface{}).Method("Get").Apply(zeroFn(ifaceCb)) }},
 		{"interface-not-interface", "Interface(&int)", func(b *mocker.Builder) { x := 5; b.Interface(&x).Method("Get").Apply(zeroFn(ifaceCb)) }},
+		// the As() template of an interface method lacks parameters of the method: rejected on every route that uses it
+		{"interface-as-too-few-parameters", "As(func(ctx, int) int).Return", func(b *mocker.Builder) {
+			b.Interface(&iv).Method("Get").As(func(ctx *mocker.IContext, a int) int { return 0 }).Return(1)
+		}},
+		{"interface-as-too-few-parameters", "As(func(ctx) int).Return", func(b *mocker.Builder) {
+			b.Interface(&iv).Method("Get").As(func(ctx *mocker.IContext) int { return 0 }).Return(1)
+		}},
+		{"interface-as-too-few-parameters", "As(func(ctx, int) int).Returns", func(b *mocker.Builder) {
+			b.Interface(&iv).Method("Get").As(func(ctx *mocker.IContext, a int) int { return 0 }).Returns(1, 2)
+		}},
+		{"interface-as-too-few-parameters", "As(func(ctx, int) int).When", func(b *mocker.Builder) {
+			b.Interface(&iv).Method("Get").As(func(ctx *mocker.IContext, a int) int { return 0 }).When(1).Return(1)
+		}},
+		{"interface-as-too-few-parameters", "Apply(func(ctx, int) int)", func(b *mocker.Builder) {
+			b.Interface(&iv).Method("Get").Apply(func(ctx *mocker.IContext, a int) int { return 0 })
+		}},
 		{"interface-return-without-as", "Interface(&iv).Method(Get).Return", func(b *mocker.Builder) { b.Interface(&iv).Method("Get").Return(1) }},
 		{"var-not-pointer", "Var(5)", func(b *mocker.Builder) { b.Var(5).Set(6) }},
 	}
